@@ -15,6 +15,11 @@ type Options struct {
 	MaxUnroll int       // per-loop unrolling cap (default 512)
 	MaxSteps  int       // executed-instruction cap (default 4,000,000)
 	Spec      *ProgSpec // verdict set / pass verdict / acts predicate (default: from program type)
+	// AllFunctional generates the functional-spec obligations of every
+	// property (default: only those of Property).
+	AllFunctional bool
+
+	onlyRef *FunctionalRef // internal: pinned run that generates only this specification's obligations
 }
 
 type factNode struct {
@@ -149,6 +154,7 @@ type executor struct {
 	resolveFor    *knownNode
 	resolveMemo   map[*Val]*Val
 	condMemo      map[string]int8
+	mute          int // >0: obligations are not recorded (second execution of call2 hooks)
 	noStoreEvents bool
 	pktOpaque     bool // a helper modified packet bytes (no store event describes it)
 }
@@ -576,7 +582,7 @@ func (e *executor) descr(fr *frame, tag string) string {
 
 // oblige records an obligation "pc => goal" and assumes it afterwards.
 func (e *executor) oblige(fr *frame, st *State, kind, tag string, goal smt.Term, src string) *Obligation {
-	if st.pc.IsFalse() {
+	if st.pc.IsFalse() || e.mute > 0 {
 		return nil
 	}
 	desc := e.descr(fr, tag)
